@@ -16,6 +16,7 @@ var fnExecute = [3]string{"pkg/vm", "VM", "execute"}
 // C12 limit-guards
 
 func ruleLimitGuards(c *Ctx) {
+	allocAfterBound(c)
 	runGates(c, []GateSpec{
 		{ID: "NEWBUFFER.make", Fn: fnExecute, Arm: "NEWBUFFER", Target: "call:builtin.make",
 			Guards: []Guard{{ID: "max-size", Doc: "buffer size is compared with stackitem.MaxSize before allocation", Alts: [][]string{{"pkg/vm/stackitem.MaxSize"}}}}},
